@@ -131,6 +131,7 @@ var (
 	rWrCache  = Rule{"OWN-WRCACHE", rules.OwnWriterCache}
 	rIndex    = Rule{"NUM-INDEX", rules.NumIndex(rules.ScopeAlloc, rules.IndexResiduals, 200)}
 	rSlice    = Rule{"NUM-SLICE", rules.NumSlice(rules.ScopeSlice, rules.SliceResiduals, 15)}
+	rPanicAPI = Rule{"OWN-PANICAPI", rules.OwnPanicAPI(rules.ScopeAlloc, 5)}
 	rOpaque   = Rule{"TAB-OPAQUE", rules.TabOpaque}
 	rKind     = Rule{"TAB-KIND", rules.TabKind}
 	rCopyLoop = Rule{"TAB-COPYLOOP", rules.TabCopyLoop}
@@ -200,7 +201,7 @@ var registry = map[string]*Property{
 		Rules:      []Rule{rTextAuth, rSid0, rTokCache},
 	},
 	"C06": {
-		Decided:    "In package ion: a pointer obtained from an accessor that returns (nil, nil) for a typed null is dereferenced only where it is known non-nil, with preconditions inferred through helper calls (NIL-ACC); such a pointer is not passed to a callee that dereferences it unguarded (NIL-ARG); the pointer fields documented nil-if-unknown (SymbolToken.Text/Source, ImportSource) are dereferenced only under a nil test of the same access path (NIL-FIELD); every panicking pop on the reader-side stacks is dominated by a non-emptiness fact (ORD-POPGUARD, reader obligations); on the input side every allocation with a non-constant size is sized by the length of data already in memory or by a value bounded by 2^20 — a declared length never sizes an allocation before the bytes exist (NUM-ALLOC, 2 residual rows); every index into a slice, string or array on the input side (240 sites) is inside the bounds by the loop that produces it, by a dominating comparison with the length of the same object, by the callee's length contract (Peek(n), readN(n)) or by what every call site establishes (NUM-INDEX, 7 residual rows); the same for the bounds of slice expressions in the reader, symbol-table, unmarshal and timestamp files (NUM-SLICE, 3 residual rows).",
+		Decided:    "In package ion: a pointer obtained from an accessor that returns (nil, nil) for a typed null is dereferenced only where it is known non-nil, with preconditions inferred through helper calls (NIL-ACC); such a pointer is not passed to a callee that dereferences it unguarded (NIL-ARG); the pointer fields documented nil-if-unknown (SymbolToken.Text/Source, ImportSource) are dereferenced only under a nil test of the same access path (NIL-FIELD); every panicking pop on the reader-side stacks is dominated by a non-emptiness fact (ORD-POPGUARD, reader obligations); on the input side every allocation with a non-constant size is sized by the length of data already in memory or by a value bounded by 2^20 — a declared length never sizes an allocation before the bytes exist (NUM-ALLOC, 2 residual rows); every index into a slice, string or array on the input side (240 sites) is inside the bounds by the loop that produces it, by a dominating comparison with the length of the same object, by the callee's length contract (Peek(n), readN(n)) or by what every call site establishes (NUM-INDEX, 7 residual rows); the same for the bounds of slice expressions in the reader, symbol-table, unmarshal and timestamp files (NUM-SLICE, 3 residual rows); every call on the input side to a module function that panics when an integer expression over its parameters leaves a range (Decimal.ShiftL/upscale ...) establishes that range at the call (OWN-PANICAPI).",
 		Necessary:  "An unguarded dereference of a typed null's nil accessor result, or an unguarded pop, is a panic on an input that exists (null.int, $0, imports:null.symbol — findings F7, F8, F9, all fixed).",
 		NotDecided: "slice bounds inside the text formatters (decimal.go, textutils.go), explicit internal-consistency panics (bitstream.remaining/StepOut: pos <= end is arithmetic), loop termination, recursion depth, memory retained by deeply nested or very long valid input",
 		Technique:  "SSA must-dataflow of nil facts keyed by canonical access path, with inferred callee preconditions",
@@ -208,7 +209,7 @@ var registry = map[string]*Property{
 		Rules: []Rule{
 			{"NIL-ACC", rules.NilAcc(rules.ScopeIon, 20)}, {"NIL-ARG", rules.NilArg(rules.ScopeIon, 0)}, {"NIL-FIELD", rules.NilField(rules.ScopeIon, 8)},
 			only(rOrdPopGuard, 2, funcHas("Reader", "bitstream", "tokenizer")),
-			rAlloc, rIndex, rSlice,
+			rAlloc, rIndex, rSlice, rPanicAPI,
 		},
 	},
 	"C07": {
@@ -354,6 +355,7 @@ var devRules = map[string]Rule{
 	"OWN-INPUT":       {"OWN-INPUT", rules.OwnInput},
 	"TAB-DATEVAL":     {"TAB-DATEVAL", rules.TabDateVal},
 	"ORD-STEPIN":      {"ORD-STEPIN", rules.OrdStepIn},
+	"OWN-PANICAPI":    {"OWN-PANICAPI", rules.OwnPanicAPI(rules.ScopeAlloc, 0)},
 	"TAB-COPYLOOP":    {"TAB-COPYLOOP", rules.TabCopyLoop},
 	"NIL-MAP":         {"NIL-MAP", rules.NilMap(rules.Scope{Name: "the module"}, 0)},
 	"TAB-OPAQUE":      {"TAB-OPAQUE", rules.TabOpaque},
